@@ -6,7 +6,7 @@ repo = sys.argv[1] if len(sys.argv) > 1 else "/repo"
 b = json.load(open("/root/.vp/BASELINE.json"))
 with tempfile.TemporaryDirectory() as d:
     x = os.path.join(d, "j.xml")
-    subprocess.run(f"cd {repo} && /venv/bin/python -m pytest -ra -q -p no:cacheprovider --timeout=900 --continue-on-collection-errors --junitxml={x}",
+    subprocess.run(f"cd {repo} && PYTHONPATH={repo} /venv/bin/python -m pytest -ra -q -p no:cacheprovider --timeout=900 --continue-on-collection-errors --junitxml={x}",
                    shell=True, capture_output=True, text=True)
     passed = set()
     for tc in ET.parse(x).getroot().iter("testcase"):
